@@ -1,14 +1,275 @@
 /-
-  HotXL.Model.Fn.Agg — builtin functions of this family (filled in as the family is modelled).
+  HotXL.Model.Fn.Agg — SUM, PRODUCT, SUMIF, SUMIFS of hotxlfp/formulas/mathtrig.py and the
+  criteria machinery of hotxlfp/formulas/utils.py (`REGEX_CRITERIA`, `OPERATOR_DICT`,
+  `parse_criteria`) shared with the conditional aggregates of statistical.py
+  (`HotXL.Model.Fn.Stat`).
+
+  Conventions (see also `Fn/Common.lean`):
+  * floats are exact rationals; `Num.int` / `Num.flt` follow the Python result TYPE;
+  * `.error e` = the Python function raised (any non-XLError exception is `#ERROR!`);
+  * `Value.other _` is an opaque host object: it is no number/text/list, `==` with it is false,
+    ordering it raises TypeError, it is truthy and not iterable.
 -/
 import HotXL.Model.Fn.Common
 
 namespace HotXL.Fn.Agg
 open HotXL HotXL.Ops HotXL.Fn
 
+/-! ### numeric helpers -/
+
+/-- Python `type(x) is int` (logicals count as ints here) -/
+def isInt : Num → Bool
+  | .int _ => true
+  | .flt _ => false
+
+/-- no float among the items: Python keeps the result an `int` -/
+def allInt (xs : List Num) : Bool := xs.all isInt
+
+/-- exact values of the items -/
+def rats (xs : List Num) : List Rat := xs.map Num.toRat
+
+/-- Σ q -/
+def ratSum : List Rat → Rat
+  | [] => 0
+  | q :: qs => q + ratSum qs
+
+/-- ∏ q -/
+def ratProd : List Rat → Rat
+  | [] => 1
+  | q :: qs => q * ratProd qs
+
+def ratAbs (q : Rat) : Rat := if q < 0 then -q else q
+
+/-! ### SUM, PRODUCT -/
+
 /-- SUM(*args) = sum(inumbers(args, try_parse=True))  (hotxlfp/formulas/mathtrig.py) -/
 def SUM : Builtin := fun args => (inumbers true false args).map (fun xs => .num (pySum xs))
 
-def table : List (String × Builtin) := [("SUM", SUM)]
+/-- `reduce(operator.mul, xs)`: TypeError on an empty sequence, the single item itself, else
+    the left-to-right product -/
+def prodNums : List Num → Except Err Num
+  | [] => .error .error
+  | x :: xs => .ok (xs.foldl numMul x)
+
+/-- PRODUCT(*args) = reduce(operator.mul, inumbers(args)) -/
+def PRODUCT : Builtin := fun args =>
+  match inumbers false false args with
+  | .error e => .error e
+  | .ok xs => (prodNums xs).map .num
+
+/-! ### criteria: `parse_criteria` -/
+
+/-- a parsed criterion: the three lambdas `parse_criteria` can return -/
+inductive Crit where
+  | cmp (op : CmpOp) (v : Value)     -- `lambda a: op(a, val)`, val = to_number(text after the operator)
+  | glob (pat : List Char)           -- `lambda a: isinstance(a, str) and fnmatch.fnmatch(a, val)`
+  | eq (v : Value)                   -- `lambda a: a == to_number(val)`
+  deriving Repr
+
+def isOpChar (c : Char) : Bool := c = '<' || c = '>' || c = '='
+
+/-- text up to (not including) the first newline: what `.+` can match -/
+def lineOf (t : List Char) : List Char := t.takeWhile (fun c => c ≠ '\n')
+
+/-- `REGEX_CRITERIA.match(s)`: `(?P<op>[<>=]*)(?P<val>.+)` — the operator characters are taken
+    greedily, but one is given back when nothing (or a newline) follows them, because `val`
+    needs at least one character; `none` = no match.  Returns `(op, val)`. -/
+def splitCriteria (s : List Char) : Option (List Char × List Char) :=
+  let ops := s.takeWhile isOpChar
+  let rest := s.dropWhile isOpChar
+  let giveBack : Option (List Char × List Char) :=
+    match ops.getLast? with
+    | none => none
+    | some c => some (ops.dropLast, [c])
+  match rest with
+  | [] => giveBack
+  | c :: _ => if c = '\n' then giveBack else some (ops, lineOf rest)
+
+/-- `OPERATOR_DICT[op]` for a non-empty run of `<`, `>`, `=`; `none` = KeyError -/
+def opOf (op : List Char) : Option CmpOp :=
+  if op = ['>'] then some .gt
+  else if op = ['<'] then some .lt
+  else if op = ['<', '>'] then some .ne
+  else if op = ['='] then some .eq
+  else if op = ['>', '='] then some .ge
+  else if op = ['<', '='] then some .le
+  else none
+
+def hasWildcard (val : List Char) : Bool := val.any (fun c => c = '?' || c = '*')
+
+/-- `parse_criteria(criteria)`; raises (`#ERROR!`) on a non-string (TypeError), on text the
+    regular expression does not match (AttributeError on `None.group`) and on an operator that
+    is not in `OPERATOR_DICT` such as `=<` (KeyError) -/
+def parseCriteria (c : Value) : Except Err Crit :=
+  match c with
+  | .str s =>
+    match splitCriteria s with
+    | none => .error .error
+    | some (op, val) =>
+      if op.isEmpty then
+        if hasWildcard val then .ok (.glob val) else .ok (.eq (toNumber (.str val)))
+      else match opOf op with
+        | some o => .ok (.cmp o (toNumber (.str val)))
+        | none => .error .error
+  | _ => .error .error
+
+/-- all suffixes of a text, longest first -/
+def suffixes : List Char → List (List Char)
+  | [] => [[]]
+  | c :: t => (c :: t) :: suffixes t
+
+/-- `fnmatch.fnmatchcase(text, pat)` for patterns without `[`: `*` matches any run of
+    characters (newlines included), `?` exactly one character, anything else itself -/
+def globMatch : List Char → List Char → Bool
+  | [], t => t.isEmpty
+  | p :: ps, t =>
+    if p = '*' then (suffixes t).any (fun u => globMatch ps u)
+    else match t with
+      | [] => false
+      | c :: t' => (p = '?' || p = c) && globMatch ps t'
+
+def ratCmp (op : CmpOp) (x y : Rat) : Bool :=
+  match op with
+  | .gt => y < x | .lt => x < y | .ge => y ≤ x | .le => x ≤ y | .eq => x = y | .ne => x ≠ y
+
+def strCmp (op : CmpOp) (s t : List Char) : Bool :=
+  match op with
+  | .gt => strLt t s | .lt => strLt s t | .ge => !strLt s t | .le => !strLt t s
+  | .eq => s = t | .ne => s ≠ t
+
+/-- `compare(a)`: `op(a, val)` with `val` a number or text, `False` when that raises TypeError:
+    `==`/`!=` never raise; the orderings are defined between numbers (logicals included) and
+    between texts — any other cell (text against a number, blank, error value, date, list)
+    does not satisfy the criterion -/
+def cmpScalar (op : CmpOp) (a v : Value) : Bool :=
+  match op with
+  | .eq => pyEqValue a v
+  | .ne => !pyEqValue a v
+  | _ =>
+    match pyNumeric? a, pyNumeric? v with
+    | some x, some y => ratCmp op x y
+    | _, _ =>
+      match a, v with
+      | .str s, .str t => strCmp op s t
+      | _, _ => false
+
+/-- the predicate applied to one item (it never raises) -/
+def Crit.test : Crit → Value → Bool
+  | .cmp op v, a => cmpScalar op a v
+  | .glob p, a =>
+    match a with
+    | .str s => globMatch p s
+    | _ => false
+  | .eq v, a => pyEqValue a v
+
+/-- the items satisfying the predicate, in order (`a for a in items if predicate(a)`) -/
+def selectBy (c : Crit) (items : List Value) : List Value := items.filter c.test
+
+/-- the selected items as Python numbers: `0 + a` / `b += a` is a TypeError for anything else
+    (text, blank, error values, dates, lists) -/
+def numsOf : List Value → Except Err (List Num)
+  | [] => .ok []
+  | v :: rest =>
+    match asNumber? v with
+    | none => .error .error
+    | some n => (numsOf rest).map (n :: ·)
+
+/-- criteria strings whose wildcard semantics the model covers: no `[` (fnmatch character
+    classes are library behaviour) -/
+def critModelled : Value → Bool
+  | .str s => !s.contains '['
+  | _ => true
+
+/-- SUMIF(args, criteria) = sum(a for a in iflatten(args) if predicate(a)) -/
+def SUMIF : Builtin
+  | [args, criteria] =>
+    match parseCriteria criteria with
+    | .error e => .error e
+    | .ok c => (numsOf (selectBy c (flattenValue args))).map (fun ns => .num (pySum ns))
+  | _ => .error .error
+
+/-! ### the `…IFS` family: criteria ranges aligned by index -/
+
+/-- `zip(criteria[::2], (parse_criteria(c) for c in criteria[1::2]))`, built eagerly:
+    a criterion that does not parse raises -/
+def parsePairs : List Value → Except Err (List (Value × Crit))
+  | r :: c :: rest =>
+    match parseCriteria c with
+    | .error e => .error e
+    | .ok p => (parsePairs rest).map ((r, p) :: ·)
+  | _ => .ok []
+
+/-- Python `x[i]`: list item, character of a text; IndexError / TypeError = `none` -/
+def indexValue (x : Value) (i : Nat) : Option Value :=
+  match x with
+  | .arr xs => xs[i]?
+  | .str s => (s[i]?).map (fun c => .str [c])
+  | _ => none
+
+/-- what `enumerate(x)` / `len(x)` see: a list, or the characters of a text; `none` = TypeError -/
+def seqOf : Value → Option (List Value)
+  | .arr xs => some xs
+  | .str s => some (s.map (fun c => .str [c]))
+  | _ => none
+
+/-- `all(pred(criteria_range[i]) for criteria_range, pred in range_and_preds)`: left to right,
+    stopping at the first criterion that fails; `criteria_range[i]` may raise (IndexError on a
+    short range, TypeError on a non-sequence) -/
+def allCrit : List (Value × Crit) → Nat → Except Err Bool
+  | [], _ => .ok true
+  | (r, c) :: rest, i =>
+    match indexValue r i with
+    | none => .error .error
+    | some v => if c.test v then allCrit rest i else .ok false
+
+/-- the items of the value range whose row (index `i`, `i+1`, …) satisfies every criterion -/
+def selectRows (preds : List (Value × Crit)) : List Value → Nat → Except Err (List Value)
+  | [], _ => .ok []
+  | a :: rest, i =>
+    match allCrit preds i with
+    | .error e => .error e
+    | .ok b =>
+      match selectRows preds rest (i + 1) with
+      | .error e => .error e
+      | .ok tail => .ok (if b then a :: tail else tail)
+
+/-- the validation loop of SUMIFS: a text criteria range returns `#ERROR!`, a length mismatch
+    returns `#VALUE!`, `len()` of a non-sequence raises; `none` = all fine -/
+def validateRanges (n : Nat) : List (Value × Crit) → Option (Except Err Value)
+  | [] => none
+  | (r, _) :: rest =>
+    match r with
+    | .str _ => some (.ok (.err .error))
+    | .arr xs => if xs.length ≠ n then some (.ok (.err .value)) else validateRanges n rest
+    | _ => some (.error .error)
+
+/-- SUMIFS(sum_args, *criteria) -/
+def SUMIFS : Builtin
+  | [] => .error .error
+  | sumArgs :: criteria =>
+    if criteria.length % 2 ≠ 0 then .ok (.err .error) else
+    match parsePairs criteria with
+    | .error e => .error e
+    | .ok preds =>
+      match seqOf sumArgs with
+      | none => .error .error
+      | some items =>
+        match validateRanges items.length preds with
+        | some r => r
+        | none =>
+          match selectRows preds items 0 with
+          | .error e => .error e
+          | .ok sel => (numsOf sel).map (fun ns => .num (pySum ns))
+
+/-- a builtin whose criteria arguments (at the given positions) must be in the modelled
+    fragment; otherwise the model has no opinion -/
+def guardCriteria (isCrit : Nat → Bool) (f : Builtin) : Builtin := fun args =>
+  if (args.zipIdx.all (fun p => !isCrit p.2 || critModelled p.1)) then f args
+  else .ok (.other "unmodelled-fnmatch-class")
+
+def table : List (String × Builtin) :=
+  [("SUM", SUM), ("PRODUCT", PRODUCT),
+   ("SUMIF", guardCriteria (fun i => i = 1) SUMIF),
+   ("SUMIFS", guardCriteria (fun i => i ≥ 2 && i % 2 = 0) SUMIFS)]
 
 end HotXL.Fn.Agg
